@@ -10,6 +10,7 @@ import (
 	"runtime"
 	"runtime/debug"
 	"runtime/pprof"
+	"strings"
 	"sync/atomic"
 	"testing/synctest"
 	"time"
@@ -368,6 +369,27 @@ func (w *c01World) exec(c *c01Case, big []byte) {
 				try("Get after Put", func() error { _, err := n.st.Get(key, id); return err })
 			}
 		}
+	case "ask-pong", "ask-nodes", "ask-enr", "ask-content", "ask-accept":
+		// our own request goes out over the wire; sender 0's endpoint answers it with the case's bytes
+		f = func() {
+			w.h.answer = func([]byte) []byte { return in }
+			w.h.wire.mute = false
+			defer func() { w.h.wire.mute, w.h.answer = true, nil }()
+			var err error
+			switch c.Entry {
+			case "ask-pong":
+				_, err = n.p.VerifPing(sender)
+			case "ask-nodes":
+				_, err = n.p.VerifFindNodes(sender, []uint{256, 255, 254, 253})
+			case "ask-enr":
+				_, err = n.p.RequestENR(sender)
+			case "ask-content":
+				_, _, err = n.p.VerifFindContent(sender, its[0].Key)
+			case "ask-accept":
+				_, err = n.p.VerifOffer(sender, w.c.offerRequest(c.Net, c.Req), &portalwire.NoPermit{})
+			}
+			obs = c.Req + "|" + errDigest(err)
+		}
 	case "utp":
 		f = func() { w.h.utpIn(sender, addr, in) }
 		if c.Conn {
@@ -413,7 +435,7 @@ func (w *c01World) exec(c *c01Case, big []byte) {
 		if c.Sender == 1 {
 			n.vt.Forget(sender.ID())
 		}
-		if c.Entry == "pong" || (c.Entry == "talkreq" && (len(in) > 0 && in[0] == portalwire.PING || len(c.Prev) > 0 && c.Prev[0] == portalwire.PING)) {
+		if c.Entry == "pong" || strings.HasPrefix(c.Entry, "ask-") || (c.Entry == "talkreq" && (len(in) > 0 && in[0] == portalwire.PING || len(c.Prev) > 0 && c.Prev[0] == portalwire.PING)) {
 			n.p.VerifResetPeerCaches()
 		}
 		if c.Entry == "offered" || c.Entry == "item" {
@@ -469,6 +491,7 @@ func (w *c01World) enumerate() {
 			w.talkRequests(net, store)
 			if store == "populated" { // the response processors do not read the store (processOffer does, for what it sends)
 				w.talkResponses(net, store)
+				w.askedResponses(net, store)
 			}
 			w.streamBodies(net, store)
 			w.contentItems(net, store)
@@ -538,6 +561,36 @@ func (w *c01World) talkResponses(net, store string) {
 					one(s.B)
 					c01Mutants(s, true, true, one)
 				}
+			}
+		}
+	}
+}
+
+// (2b) the same TALKRESP payloads as the answer to a real request of ours: ping, findNodes,
+// RequestENR, findContent and offer send over the wire to sender 0's endpoint, which replies with
+// the case's bytes; the callers of the response processors run too. Strings of length <= 1,
+// every seed and every 1-point mutant.
+func (w *c01World) askedResponses(net, store string) {
+	resps := w.c.responseSeeds(w.h, net)
+	for _, ask := range [][2]string{{"ask-pong", "pong"}, {"ask-nodes", "nodes"}, {"ask-enr", "nodes"}, {"ask-content", "content"}, {"ask-accept", "accept"}} {
+		kinds := []string{""}
+		if ask[0] == "ask-accept" {
+			kinds = []string{"persist", "transient"}
+		}
+		for _, kind := range kinds {
+			proto := c01Case{Net: net, Store: store, Entry: ask[0], Sender: 0, Req: kind, Items: []string{w.c.items[net][0].Name}}
+			c01Shorts(1, func(b []byte) { c := proto; c.In = b; w.do(&c, nil) })
+			for _, s := range resps[ask[1]] {
+				proto.Seed = s.Name
+				k := 0
+				one := func(m []byte) {
+					c := proto
+					c.Mut, c.In = k, m
+					w.do(&c, nil)
+					k++
+				}
+				one(s.B)
+				c01Mutants(s, true, true, one)
 			}
 		}
 	}
